@@ -2,8 +2,8 @@ package rlpfm
 
 // C43: packet forwarding is all-or-nothing and conserves tokens.
 //
-// World: 3-4 chains on a line 0-1-2(-3) with one ICS-20 v1 channel per neighbour pair, optionally a
-// chord 0-2. 1-2 concurrent forwards. Each forward moves a token (native / voucher after a
+// World: 3 chains in a triangle or 4 chains in a ring (optionally with a chord 0-2), one ICS-20 v1
+// channel per linked pair. 1-2 concurrent forwards. Each forward moves a token (native / voucher after a
 // pre-walk of plain transfers / unwinding when its route retraces the pre-walk) along a walk of
 // 2-4 hops described by nested `forward` memos. Every hop has a plan: how many attempts time out
 // (against the retries written in the memo) and how the delivered attempt ends (ok, receive
@@ -111,11 +111,13 @@ type pfCase struct {
 	Order []int       `json:"order"`
 }
 
+// pfTopology: 3 chains form a triangle, 4 chains a ring 0-1-2-3-0 with an optional chord 0-2, so
+// that long routes exist that never leave a chain over the channel they arrived on.
 func pfTopology(n int, chord bool) [][2]int {
-	t := [][2]int{{0, 1}, {1, 2}}
-	if n == 4 {
-		t = append(t, [2]int{2, 3})
+	if n == 3 {
+		return [][2]int{{0, 1}, {1, 2}, {0, 2}}
 	}
+	t := [][2]int{{0, 1}, {1, 2}, {2, 3}, {0, 3}}
 	if chord {
 		t = append(t, [2]int{0, 2})
 	}
@@ -831,7 +833,7 @@ func genC43(t *rapid.T) pfCase {
 			fw.Hops = append(fw.Hops, h)
 		}
 		// one planned failure on most routes, biased to the later hops
-		if rapid.IntRange(0, 4).Draw(t, "fault") > 0 {
+		if rapid.IntRange(0, 9).Draw(t, "fault") > 2 {
 			k := rapid.IntRange(1, H).Draw(t, "faulthop")
 			if k == 1 && rapid.Bool().Draw(t, "later") {
 				k = rapid.IntRange(2, H).Draw(t, "faulthop2")
@@ -869,7 +871,7 @@ func genC43(t *rapid.T) pfCase {
 func TestC43(t *testing.T) {
 	vx.Check(t, vx.Prop[pfCase]{
 		ID: c43,
-		Rule: "3-4 chains (line, optional chord), 1-2 concurrent forwards of 2-4 hops with nested forward memos (map or string `next`, custom timeouts and retries); token native / voucher (0-2 plain pre-hops) / unwinding; " +
+		Rule: "3 chains (triangle) or 4 chains (ring, optional chord), 1-2 concurrent forwards of 2-4 hops with nested forward memos (map or string `next`, custom timeouts and retries); token native / voucher (0-2 plain pre-hops) / unwinding; " +
 			"per hop: timeouts against retries, then ok | receive disabled | invalid final receiver | send disabled on the forwarding chain | unknown next channel; relay order drawn; " +
 			"non-trivial = a route of >= 3 hops that was refunded after reaching hop >= 2; distinct by full case",
 		MinNTFrac: 0.2,
